@@ -25,7 +25,8 @@ CMDS = [("Sgate", (0.3, 0.0), (0,), False, None), ("Sgate", (0.3, 0.0), (0,), Tr
         ("Sgate", (0.3, 0.0), (1,), False, None), ("Rgate", (0.4,), (0,), False, None),
         ("BSgate", (0.3, 0.1), (0, 1), False, None), ("BSgate", (0.3, 0.1), (1, 0), False, None),
         ("MeasureFock", (), (0, 1), False, None), ("MeasureFock", (), (0, 1, 2), False, None),
-        ("MeasureFock", (), (0,), False, [1]), ("MeasureFock", (), (0,), False, None)]
+        ("MeasureFock", (), (0,), False, [1]), ("MeasureFock", (), (0,), False, None), ("MeasureFock", (), (0,), False, [3]),
+        ("MeasureFock", (), (0,), False, [0])]
 
 
 def battery():
